@@ -23,6 +23,8 @@ inductive Flow
   | loop (cond : String) (body : List String)
   /-- a loop whose body branches: explored as "not entered" and as one symbolic iteration -/
   | loopB (cond : String) (body : Flow)
+  | brk
+  | cont
   /-- a construct the translator has no constructor for -/
   | other (what : String)
 deriving Repr
@@ -36,6 +38,8 @@ inductive Ev
   | loopSkip (cond : String)   -- a branching loop is not entered
   | loopIter (cond : String)   -- ... or one iteration (any of them) begins
   | loopEnd
+  | brk                        -- `break` out of the innermost loop
+  | cont                       -- `continue` with its next iteration
   | other (what : String)
 deriving Repr, DecidableEq
 
@@ -46,8 +50,13 @@ def paths : Flow → List (List Ev × Bool)
   | .ret t => [([.ret t], true)]
   | .loop c b => [([.loop c b], false)]
   | .other w => [([.other w], false)]
+  | .brk => [([.brk], true)]
+  | .cont => [([.cont], true)]
   | .loopB c b =>
-    ([Ev.loopSkip c], false) :: (paths b).map (fun p => (Ev.loopIter c :: p.1 ++ (if p.2 then [] else [Ev.loopEnd]), p.2))
+    -- a body path that ends in `break` / `continue` leaves the iteration, not the function
+    ([Ev.loopSkip c], false) :: (paths b).map (fun p =>
+      let jumped := p.1.getLast? == some Ev.brk || p.1.getLast? == some Ev.cont
+      (Ev.loopIter c :: p.1 ++ (if p.2 then [] else [Ev.loopEnd]), p.2 && !jumped))
   | .ite c a b =>
     (paths a).map (fun p => (Ev.yes c :: p.1, p.2)) ++ (paths b).map (fun p => (Ev.no c :: p.1, p.2))
   | .seq a b =>
